@@ -1,7 +1,8 @@
 (* The Gallina text generated from the current Go source of codec.Buffer.WriteHead / WriteInt8 / WriteInt16 /
-   WriteInt32 / WriteInt64 (Gen/Translated.v) appends exactly the bytes of the hand-written C02 model
-   (Codec.Wire.head, Codec.Prim.w_int8 .. w_int64) to the buffer, returns a nil error and never panics -
-   for every value of the Go parameter types. *)
+   WriteInt32 / WriteInt64 / WriteBool / WriteUint8 / WriteUint16 / WriteUint32 / WriteString (Gen/Translated.v)
+   appends exactly the bytes of the hand-written C02 model (Codec.Wire.head, Codec.Prim.w_int8 .. w_int64, w_bool,
+   w_uint8 .. w_uint32, w_string) to the buffer, returns a nil error and never panics - for every value of the
+   Go parameter types. *)
 From Coq Require Import List NArith ZArith Bool Lia ZifyBool ZifyNat ZifyN.
 From TarsV Require Import Gen.Consts Codec.Wire Codec.Prim Xlate.GoSem Xlate.GoSemFacts Gen.Translated.
 Import ListNotations.
@@ -122,10 +123,54 @@ Proof.
     rewrite (emit_wrapu 8 64) by reflexivity. reflexivity.
 Qed.
 
+(* ---------- the writers that delegate: bool and the unsigned types ---------- *)
+Theorem tr_WriteBool_equiv : forall (data : bool) tag out, 0 <= tag < 256 ->
+  tr_WriteBool data tag out = Return (out ++ w_bool data (Z.to_N tag), false).
+Proof.
+  intros data tag out Ht. unfold tr_WriteBool, w_bool.
+  destruct data; cbn [bindc]; rewrite tr_WriteInt8_equiv by lia; reflexivity.
+Qed.
+
+Theorem tr_WriteUint8_equiv : forall data tag out, 0 <= data < 256 -> 0 <= tag < 256 ->
+  tr_WriteUint8 data tag out = Return (out ++ w_uint8 data (Z.to_N tag), false).
+Proof. intros data tag out Hd Ht. unfold tr_WriteUint8, w_uint8. rewrite tr_WriteInt16_equiv by lia. reflexivity. Qed.
+
+Theorem tr_WriteUint16_equiv : forall data tag out, 0 <= data < 65536 -> 0 <= tag < 256 ->
+  tr_WriteUint16 data tag out = Return (out ++ w_uint16 data (Z.to_N tag), false).
+Proof. intros data tag out Hd Ht. unfold tr_WriteUint16, w_uint16. rewrite tr_WriteInt32_equiv by lia. reflexivity. Qed.
+
+Theorem tr_WriteUint32_equiv : forall data tag out, 0 <= data < 4294967296 -> 0 <= tag < 256 ->
+  tr_WriteUint32 data tag out = Return (out ++ w_uint32 data (Z.to_N tag), false).
+Proof. intros data tag out Hd Ht. unfold tr_WriteUint32, w_uint32. rewrite tr_WriteInt64_equiv by lia. reflexivity. Qed.
+
+(* ---------- WriteString: one-byte or four-byte length, then the bytes; any length (the four-byte length wraps
+   in the code as in the model) ---------- *)
+Theorem tr_WriteString_equiv : forall (s : list N) tag out, 0 <= tag < 256 ->
+  tr_WriteString s tag out = Return (out ++ w_string s (Z.to_N tag), false).
+Proof.
+  intros s tag out Ht. unfold tr_WriteString, w_string, go_emit_bytes.
+  unfold k_codec_STRING4, k_codec_STRING1, go_len.
+  destruct (255 <? Z.of_nat (length s)) eqn:E.
+  - replace (255 <? N.of_nat (length s))%N with true by lia.
+    rewrite tr_WriteHead_equiv by lia. cbn [go_call bindc Bool.eqb negb].
+    change (go_emit_u32 (wrapU 32 (Z.of_nat (length s)))) with (go_put_be 4 (wrapU 32 (Z.of_nat (length s)))).
+    rewrite (emit_wrapu 4 32) by reflexivity.
+    replace (wrapu 32 (Z.of_nat (length s))) with (N.of_nat (length s) mod 4294967296)%N
+      by (unfold wrapu; change (2 ^ 32) with 4294967296; lia).
+    rewrite <- !app_assoc. reflexivity.
+  - replace (255 <? N.of_nat (length s))%N with false by lia.
+    rewrite tr_WriteHead_equiv by lia. cbn [go_call bindc Bool.eqb negb].
+    rewrite wrapU_id by (change (2 ^ 8) with 256; lia). rewrite emit_u8 by lia.
+    replace (Z.to_N (Z.of_nat (length s))) with (N.of_nat (length s)) by lia.
+    rewrite <- !app_assoc. reflexivity.
+Qed.
+
 (* instances satisfying the range hypotheses: a two-byte head, and a value at the int16/int32 boundary *)
 Example tr_WriteHead_ex : tr_WriteHead 1 200 [7%N] = Return ([7; 241; 200]%N, false).
 Proof. vm_compute. reflexivity. Qed.
 Example tr_WriteInt64_ex : tr_WriteInt64 32768 3 [] = Return ([50; 0; 0; 128; 0]%N, false).
+Proof. vm_compute. reflexivity. Qed.
+Example tr_WriteString_ex : tr_WriteString [104; 105]%N 16 [] = Return ([246; 16; 2; 104; 105]%N, false).
 Proof. vm_compute. reflexivity. Qed.
 Example tr_WriteInt64_ex_hyp : -9223372036854775808 <= 32768 <= 9223372036854775807 /\ 0 <= 3 < 256.
 Proof. lia. Qed.
